@@ -115,4 +115,19 @@ CLAIMS.update({
               category='other', technique='complete enumeration of the code tables + proved endian contracts + bounded differential against struct'),
 })
 
+CLAIMS.update({
+    'C05': _p("The arithmetic the property is about -- lengths add up, one value per non-pad token, the single length-less token gets "
+              "max(remaining - later fixed lengths, 0) bits in whole units, too few / too many / unfitting values raise -- is proved "
+              "on the real pack and _read_dtype_list for token lists with symbolic lengths and values (concrete format strings, "
+              "keyword lengths). The tokeniser (regular expressions, bracket expansion) is outside the prover: bounded grammar "
+              "differential against an independent encoder, plus the compositional laws on real strings.", category='other'),
+    'C19': _p("str()/repr() are proved never to raise for any length, class and store state (the __str__ branches partition all "
+              "lengths and every hex piece is a whole number of digits); the text content (round trips, pp layout, colour) is "
+              "string code: bounded stand-in on the real functions.", category='other'),
+    'C20': _p("Exception classes and post-state validity are clauses of every public contract: the check re-runs the contracts of the "
+              "public mutators, stream operations, constructors/sources, value setters, operators and printing (each raising path "
+              "has a documented class, rollback and pos validity proved). Entry points taking format strings and those not under "
+              "contract are covered by a bounded API fuzzer.", category='other'),
+})
+
 NOT_APPLICABLE = {}
